@@ -33,6 +33,15 @@ This round asks for changes of the following kinds (pick two DIFFERENT kinds for
      (e.g. a construct nested in a specific other construct in a function with a rest parameter; a library call whose
      argument is itself produced by a particular other call; an error raised while another error is being reported).
 """,
+ 'R10': """
+This round is CLAUSE-COVERAGE driven.  First split the property statement into its individual clauses (every "and", every "in
+particular", every listed consumer / input form / configuration, the quantifier's dimensions).  Then go through the list of changes
+already collected (below) and note which clause each one attacks.  Write your two changes against the TWO clauses (or quantifier
+dimensions) that were attacked LEAST so far - ideally never - and say in meta.json ("clause") which clause that is and why earlier
+changes left it alone.  Any mechanism is welcome (state, thresholds, aliasing, host-language coincidences, error paths, unusual but
+legal inputs, two cooperating sites) as long as the change needs something specific to manifest and is not a close variant of a
+collected one.  Prefer code far away from where the collected changes cluster (a different function / file among the anchors).
+""",
  'R9': """
 This round asks for changes of the following kinds (pick two DIFFERENT kinds for your two changes):
 
